@@ -34,6 +34,13 @@ pub enum Agg {
     FoldFrom(u8),
 }
 impl Agg {
+    /// Is the aggregate independent of the arrival order?
+    pub fn commutative(self) -> bool {
+        match self {
+            Agg::Reduce(f) => fns::kreduce_commutative(f),
+            Agg::Fold(f) | Agg::FoldFrom(f) => fns::kfold_commutative(f),
+        }
+    }
     pub fn f(self) -> u8 {
         match self {
             Agg::Reduce(f) | Agg::Fold(f) | Agg::FoldFrom(f) => f,
@@ -319,13 +326,13 @@ impl Op {
     pub fn needs_ordered(&self, i: usize) -> bool {
         match self {
             Op::Enumerate(_) | Op::Scan(..) => true,
-            Op::Fold(_, f) | Op::FoldNoReplay(_, f) | Op::Reduce(_, f) | Op::ReduceNoReplay(_, f) => {
-                !fns::fold_commutative(*f)
-            }
-            Op::FoldKeyed(_, f) | Op::ReduceKeyed(_, f) => !fns::kfold_commutative(*f),
-            Op::JoinFused(_, _, a, b) => !fns::kfold_commutative(if i == 0 { a.f() } else { b.f() }),
-            Op::JoinFusedLhs(_, _, a) => i == 0 && !fns::kfold_commutative(a.f()),
-            Op::JoinFusedRhs(_, _, a) => i == 1 && !fns::kfold_commutative(a.f()),
+            Op::Fold(_, f) | Op::FoldNoReplay(_, f) => !fns::fold_commutative(*f),
+            Op::Reduce(_, f) | Op::ReduceNoReplay(_, f) => !fns::reduce_commutative(*f),
+            Op::FoldKeyed(_, f) => !fns::kfold_commutative(*f),
+            Op::ReduceKeyed(_, f) => !fns::kreduce_commutative(*f),
+            Op::JoinFused(_, _, a, b) => !(if i == 0 { a } else { b }).commutative(),
+            Op::JoinFusedLhs(_, _, a) => i == 0 && !a.commutative(),
+            Op::JoinFusedRhs(_, _, a) => i == 1 && !a.commutative(),
             Op::Zip(..) | Op::ZipLongest(_) | Op::ChainFirstN(_) => true,
             Op::CrossSingleton(_) => i == 1,
             Op::State(_, Lat::Max) => true,
@@ -440,31 +447,40 @@ impl Program {
     /// state — are not quiet.) Wake-firing sinks are only attached to quiet edges so that
     /// `run_available` has a documented end.
     pub fn quiet(&self) -> Vec<Vec<bool>> {
-        let mut q: Vec<Vec<bool>> = self.nodes.iter().map(|n| vec![false; n.op.n_out()]).collect();
-        for i in self.topo() {
-            let nd = &self.nodes[i];
-            if nd.op.is_defer() {
-                q[i] = vec![true];
-                continue;
+        let mut q: Vec<Vec<bool>> = self.nodes.iter().map(|n| vec![true; n.op.n_out()]).collect();
+        let topo = self.topo();
+        // deferral outputs are as quiet as their (cross-tick) inputs: greatest fixpoint
+        for _round in 0..self.nodes.len() + 2 {
+            let before = q.clone();
+            for &i in &topo {
+                let nd = &self.nodes[i];
+                if nd.op.is_defer() {
+                    let (j, p) = nd.ins[0];
+                    q[i] = vec![before[j][p]];
+                    continue;
+                }
+                let all_in = nd.ins.iter().all(|&(j, p)| q[j][p]);
+                let ps = nd.op.persistence();
+                let any_static = ps.iter().any(|p| *p == P::Static);
+                let o: Vec<bool> = match &nd.op {
+                    Op::Source(_) => vec![true],
+                    Op::Fold(..) | Op::LatticeFold(..) => vec![false],
+                    Op::State(..) | Op::StateBy(_) => vec![all_in, false],
+                    Op::Persist => vec![false],
+                    Op::Unique(_)
+                    | Op::Enumerate(_)
+                    | Op::Scan(..)
+                    | Op::FoldNoReplay(..)
+                    | Op::ReduceNoReplay(..)
+                    | Op::CrossSingleton(_) => vec![all_in],
+                    Op::Sink(..) | Op::Null => vec![],
+                    op => vec![all_in && !any_static; op.n_out()],
+                };
+                q[i] = o;
             }
-            let all_in = nd.ins.iter().all(|&(j, p)| q[j][p]);
-            let ps = nd.op.persistence();
-            let any_static = ps.iter().any(|p| *p == P::Static);
-            let o: Vec<bool> = match &nd.op {
-                Op::Source(_) => vec![true],
-                Op::Fold(..) | Op::LatticeFold(..) => vec![false],
-                Op::State(..) | Op::StateBy(_) => vec![all_in, false],
-                Op::Persist => vec![false],
-                Op::Unique(_)
-                | Op::Enumerate(_)
-                | Op::Scan(..)
-                | Op::FoldNoReplay(..)
-                | Op::ReduceNoReplay(..)
-                | Op::CrossSingleton(_) => vec![all_in],
-                Op::Sink(..) | Op::Null => vec![],
-                op => vec![all_in && !any_static; op.n_out()],
-            };
-            q[i] = o;
+            if q == before {
+                break;
+            }
         }
         q
     }
